@@ -328,6 +328,23 @@ func (b *B) XorAddr(t uint16, ip net.IP, port int) *B {
 	return b.Attr(t, EncodeXorAddr(ip, port, b.tx))
 }
 
+// XorAddr6 appends an XOR address attribute in the IPv6 form (family 0x02, 16 address bytes) whatever the
+// address: an IPv4 address goes out as ::ffff:a.b.c.d.
+func (b *B) XorAddr6(t uint16, ip net.IP, port int) *B {
+	var key [16]byte
+	binary.BigEndian.PutUint32(key[0:4], MagicCookie)
+	copy(key[4:], b.tx[:])
+	ip16 := ip.To16()
+	v := make([]byte, 20)
+	v[1] = 2
+	binary.BigEndian.PutUint16(v[2:], uint16(port)^uint16(MagicCookie>>16)) //nolint:gosec
+	for i := range 16 {
+		v[4+i] = ip16[i] ^ key[i]
+	}
+
+	return b.Attr(t, v)
+}
+
 // LongTermKey is MD5(user:realm:password).
 func LongTermKey(user, realm, pass string) []byte {
 	h := md5.Sum([]byte(user + ":" + realm + ":" + pass)) //nolint:gosec
